@@ -156,6 +156,13 @@ theorem C20_flush_no_keyError (cfg : Cfg) (store0 : Obj → Attr → Val) (sched
     · exact saveHead_no_keyError cfg _ s _ _ _ hinv (by simp)
     · simp [okOut]
 
+theorem pick_state (cfg : Cfg) (progs : Sid → List Action) (r : Runner) (s : Sid) :
+    (pick cfg progs r s).1.st = r.st ∨ ∃ act, (pick cfg progs r s).1.st = (step cfg r.st s act).1 := by
+  unfold pick
+  cases (progs s)[r.pcs s]? with
+  | none => left; rfl
+  | some act => right; exact ⟨act, rfl⟩
+
 /-- programs of whole operations driven by thread picks (what the differential test executes) are schedules:
     every state they reach is a state after some statement-granularity schedule -/
 theorem C20_picks_are_schedules (cfg : Cfg) (progs : Sid → List Action) (store0 : Obj → Attr → Val) (picks : List Sid) :
@@ -166,17 +173,60 @@ theorem C20_picks_are_schedules (cfg : Cfg) (progs : Sid → List Action) (store
   | cons s rest ih =>
     intro r ⟨sched, hs⟩
     apply ih
-    unfold pick
-    split
-    · exact ⟨sched, hs⟩
-    · rename_i act _
-      refine ⟨sched ++ [(s, act)], ?_⟩
+    rcases pick_state cfg progs r s with h | ⟨act, h⟩
+    · exact ⟨sched, h.trans hs⟩
+    · refine ⟨sched ++ [(s, act)], ?_⟩
       simp only [after] at hs ⊢
       have hrun : ∀ (l : List (Sid × Action)) (σ : State), run cfg σ (l ++ [(s, act)]) = (step cfg (run cfg σ l) s act).1 := by
         intro l
         induction l with
         | nil => intro σ; rfl
         | cons e l ihl => intro σ; obtain ⟨s', a'⟩ := e; simp only [List.cons_append, run]; exact ihl _
-      rw [hrun, ← hs]
+      rw [hrun, ← hs]; exact h
+
+/-! ### the hypotheses are satisfiable, the conclusions are not vacuous, the exclusions are necessary (concrete schedules) -/
+
+def cfgAll : Cfg := { attrs := [0, 1], lazy := fun _ => false, volatile := fun _ => false, attrOpt := fun _ => true, sessOpt := fun _ => true }
+def cfgExcl : Cfg := { cfgAll with attrOpt := fun a => a != 0 }
+def ones : Obj → Attr → Val := fun _ _ => 1
+
+/-- session 0 and session 1 both read attribute 0 of object 1 (value 1) and both assign it; session 0 commits first -/
+def lostUpdate : List (Sid × Action) :=
+  [(0, .get 1 false), (1, .get 1 false), (0, .read 1 0), (1, .read 1 0), (0, .write 1 0 50), (1, .write 1 0 60), (0, .close), (0, .close)]
+
+/-- session 1 reads attribute 0 and assigns attribute 1; meanwhile session 0 changes attribute 0 and commits -/
+def staleRead : List (Sid × Action) :=
+  [(1, .get 1 false), (1, .read 1 0), (1, .write 1 1 61), (0, .get 1 false), (0, .write 1 0 50), (0, .close), (0, .close)]
+
+/-- session 1 reads attribute 0 and assigns attribute 1, nobody interferes -/
+def quiet : List (Sid × Action) := [(1, .get 1 false), (1, .read 1 0), (1, .write 1 1 61)]
+
+-- C20: an applied UPDATE with an observation of an attribute the session did not overwrite
+example : (step cfgAll (after cfgAll ones quiet) 1 .close).2.upd = some 1
+    ∧ (((after cfgAll ones quiet).sess 1).objs 1).obs 0 = some 1
+    ∧ (((after cfgAll ones quiet).sess 1).objs 1).written 0 = false
+    ∧ (after cfgAll ones quiet).store 1 0 = 1 := by decide
+
+-- C20_no_lost_update: the second writer is refused, the first writer's value stays
+example : ((after cfgAll ones lostUpdate).sess 1).toSave = [1]
+    ∧ (((after cfgAll ones lostUpdate).sess 1).objs 1).obs 0 = some 1
+    ∧ view (after cfgAll ones lostUpdate) 1 1 0 = 50
+    ∧ wAttrs cfgAll (((after cfgAll ones lostUpdate).sess 1).objs 1) = [0]
+    ∧ (step cfgAll (after cfgAll ones lostUpdate) 1 .close).2.res = .optimisticCheckError
+    ∧ (step cfgAll (after cfgAll ones lostUpdate) 1 .close).1.store 1 0 = 50 := by decide
+
+-- the stale read is refused as well (the session wrote a different attribute)
+example : (step cfgAll (after cfgAll ones staleRead) 1 .close).2.res = .optimisticCheckError
+    ∧ (step cfgAll (after cfgAll ones staleRead) 1 .close).2.res.failed = true
+    ∧ (step cfgAll (after cfgAll ones staleRead) 1 .close).1.store 1 1 = 1 := by decide
+
+-- the exclusion is real: with attribute 0 excluded from optimistic checks the same schedule loses session 0's update
+example : (step cfgExcl (after cfgExcl ones lostUpdate) 1 .close).2.upd = some 1
+    ∧ (after cfgExcl ones lostUpdate).store 1 0 = 50
+    ∧ (after cfgExcl ones (lostUpdate ++ [(1, .close), (1, .close)])).store 1 0 = 60 := by decide
+
+-- a writer that finds the write lock taken waits (SQLite serialises writers)
+example : (step cfgAll (after cfgAll ones [(0, .get 1 false), (1, .get 1 false), (0, .write 1 0 50), (1, .write 1 1 60), (0, .flush)]) 1 .flush).2.res
+    = .blocked := by decide
 
 end PonyVerif.Props.C20
